@@ -69,6 +69,11 @@ type Engine struct {
 	Watch        []string // extra bech32 addresses whose balances are tracked
 	history      []string // short textual history for replay files
 	accepted     map[nonceKey]bool // pairs for which a receive succeeded on this chain history (never resynchronised)
+	// conservation bookkeeping from what was observed (independent of the model's verdicts)
+	SumMintReq   *big.Int // successful Mint requests of successful transactions
+	SumAccepted  *big.Int // amounts of module-addressed burn messages accepted (distinct pairs)
+	SumBurnReq   *big.Int // successful Burn requests of successful transactions
+	SumDeposits  *big.Int // amounts stated by module-sent messages emitted by deposits
 	c13Broken    bool
 	c13Started   bool
 }
@@ -406,6 +411,7 @@ func (e *Engine) Exec(tx Tx) *Report {
 	e.checkExactlyOnce(&tx, rep)
 	e.checkReplacementKeeps(&tx, rep)
 	e.checkSuccessImplies(&tx, rep)
+	e.trackConservation(&tx, rep)
 	e.checkDeps(&tx, rep, expDeps, fallible)
 	if txExp != DontCare {
 		contentDC := false
@@ -1280,5 +1286,49 @@ func (e *Engine) checkSuccessImplies(tx *Tx, rep *Report) {
 	if okCalls["Mint"] < moduleReceives {
 		e.viol([]string{"C14", "C04"}, "all-or-nothing", "C14:receive-success-without-mint",
 			fmt.Sprintf("%d module-addressed receive(s) reported success with %d ok mints", moduleReceives, okCalls["Mint"]), e.caseOf(tx, ""))
+	}
+}
+
+// trackConservation accumulates, from successful transactions only, what the module asked the ledger to do
+// and what the accepted / emitted burn messages say.
+func (e *Engine) trackConservation(tx *Tx, rep *Report) {
+	if e.SumMintReq == nil {
+		e.SumMintReq, e.SumAccepted, e.SumBurnReq, e.SumDeposits = new(big.Int), new(big.Int), new(big.Int), new(big.Int)
+	}
+	for _, d := range rep.Deps {
+		if d.Seq < 0 || d.Err != "" || d.Amount == nil {
+			continue
+		}
+		switch d.Method {
+		case "Mint":
+			e.SumMintReq.Add(e.SumMintReq, d.Amount)
+		case "Burn":
+			e.SumBurnReq.Add(e.SumBurnReq, d.Amount)
+		}
+	}
+	for _, m := range tx.Msgs {
+		if rx, ok := m.(*ct.MsgReceiveMessage); ok {
+			if d, err := ref.DecodeMessage(rx.Message); err == nil && bytes.Equal(d.Recipient, modulePadded) {
+				if b, err := ref.DecodeBurn(d.Body); err == nil {
+					e.SumAccepted.Add(e.SumAccepted, b.Amount)
+				}
+			}
+		}
+	}
+	producers := 0
+	for _, m := range tx.Msgs {
+		switch m.(type) {
+		case *ct.MsgDepositForBurn, *ct.MsgDepositForBurnWithCaller:
+			producers++
+		}
+	}
+	if producers > 0 {
+		for _, raw := range rep.Sent {
+			if d, err := ref.DecodeMessage(raw); err == nil && bytes.Equal(d.Sender, modulePadded) {
+				if b, err := ref.DecodeBurn(d.Body); err == nil {
+					e.SumDeposits.Add(e.SumDeposits, b.Amount)
+				}
+			}
+		}
 	}
 }
